@@ -10,6 +10,7 @@
 #include <signal.h>
 #include <time.h>
 #include <cstring>
+#include <sys/resource.h>
 #include <cstdio>
 #include <fstream>
 #include <sstream>
@@ -77,7 +78,9 @@ inline RunResult run_forked(Engine &e,const J &plan,int timeout_s = 40){   // a 
 	if(pid == 0){
 		close(pfd[0]); g_in_child = true; g_result_fd = pfd[1];
 		if(!getenv("SIMK_KEEP_STDERR")){ int ef = open(errf.c_str(),O_WRONLY|O_CREAT|O_TRUNC,0600); if(ef >= 0){ dup2(ef,2); close(ef); } }
-		alarm(getenv("VERIF_RUN_TIMEOUT") ? atoi(getenv("VERIF_RUN_TIMEOUT")) : timeout_s);
+		// the limit is on the CPU time of the run (a run spinning outside the simulator burns it), so that a loaded machine does not turn slow runs into "hangs";
+		// a generous wall-clock alarm stays as the backstop for a run that blocks in a real system call
+		{ int lim = getenv("VERIF_RUN_TIMEOUT") ? atoi(getenv("VERIF_RUN_TIMEOUT")) : timeout_s; struct rlimit rl; rl.rlim_cur = (rlim_t)lim; rl.rlim_max = (rlim_t)lim + 5; setrlimit(RLIMIT_CPU,&rl); alarm((unsigned)lim * 8); }
 		RunResult r;
 		{ const J &sch = plan.get("sched"); if(sch.is_obj()){ size_t len = (size_t)std::max<int64_t>(0,std::min<int64_t>(sch.geti("len"),50000000)); std::vector<int> t(len,simk::SCHED_DEFAULT); const J &sw = sch.get("switches"); for(size_t i=0;i<sw.size();i++) if(sw.a[i].size() >= 2){ int64_t at = sw.a[i].a[0].as_int(); if(at >= 0 && (size_t)at < len) t[(size_t)at] = (int)sw.a[i].a[1].as_int(); } simk::set_guided_tape(t); }
 		  if(plan.geti("record_schedule")) simk::set_record_schedule(true); }
@@ -110,7 +113,7 @@ inline RunResult run_forked(Engine &e,const J &plan,int timeout_s = 40){   // a 
 		std::istringstream ss(summary); std::string a,b; ss >> a >> b; kind = "sanitizer:" + a + b; }
 	else if(err.find("runtime error:") != std::string::npos){ kind = "sanitizer:ubsan"; size_t q = err.find("runtime error:"); summary = err.substr(q,err.find('\n',q)-q); }
 	else if(err.find("terminate called") != std::string::npos){ kind = "crash:terminate"; size_t q = err.find("terminate called"); summary = err.substr(q,200); }
-	else if(WIFSIGNALED(st)) kind = std::string("crash:signal") + std::to_string(WTERMSIG(st)) + (WTERMSIG(st) == SIGALRM ? "(real-time hang)" : "");
+	else if(WIFSIGNALED(st)) kind = std::string("crash:signal") + std::to_string(WTERMSIG(st)) + ((WTERMSIG(st) == SIGALRM || WTERMSIG(st) == SIGXCPU || WTERMSIG(st) == SIGKILL) ? "(real-time hang)" : "");
 	else kind = "crash:exit" + std::to_string(WIFEXITED(st) ? WEXITSTATUS(st) : -1);
 	if(err.size() > 6000) err = err.substr(0,6000);
 	r.fail(kind,summary + "\n" + err,kind);
